@@ -321,6 +321,33 @@ def r12_f(run, fx, floors=True):
         run.floor(rule, "per-iteration scratch buffers", n, 1)
 
 
+def r12_xy(run, fx):
+    rule = "R12-XY"
+    run.rule(rule, "gvar tuple variation data: the X and Y deltas are one packed stream of 2*n deltas (a run may span the X/Y boundary, OpenType "
+                   "gvar 'packed deltas'); the reader makes exactly one packed_deltas::read call for them with twice the point count and splits "
+                   "the result")
+    bs = [b for b in fx.bodies if b.kind != "Closure" and "TupleVariationHeader" in b.path and "Gvar" in b.path and b.root.endswith("::variation_data")]
+    if not bs:
+        return run.anchor_missing(rule, "TupleVariationHeader<Gvar>::variation_data")
+    for b in bs[:1]:
+        prov = sym.Prov(b)
+        reads = [(bi, t) for bi, t in b.calls() if (t["callee"].get("path") or "").endswith("packed_deltas::read")]
+        doubled = False
+        for bi, t in reads:
+            cnt = prov.op(t["args"][1])
+            for x in sym.walk(cnt):
+                if x[0] == "call" and (x[4] or x[1] or "").endswith(("::checked_mul", "::saturating_mul")) and any(sym.strip(a)[0] == "c" and sym.strip(a)[1] == 2 for a in x[2]):
+                    doubled = True
+                if x[0] == "bin" and x[1].startswith("Mul") and any(sym.strip(a)[0] == "c" and sym.strip(a)[1] == 2 for a in (x[2], x[3])):
+                    doubled = True
+        split = any((t["callee"].get("path") or "").endswith(("::split_off", "::split_at", "::split_at_mut")) for _, t in b.calls())
+        if len(reads) == 1 and doubled and split:
+            run.ok(rule, "variation_data: one packed_deltas::read of 2*n deltas, then split")
+        else:
+            run.fail(rule, "gvar-xy-stream", "variation_data reads the glyph deltas with %d packed_deltas::read call(s)%s: a delta run that spans the X/Y "
+                     "boundary is cut, the Y deltas are lost or shifted" % (len(reads), "" if doubled else " none of which asks for 2*n deltas"), "%s:%s" % (b.file, b.line))
+
+
 def check(run, fx, tier, floors=True):
     if floors or fx.body("<tables::variable_fonts::mvar::MvarTable<'_> as binary::read::ReadBinary>::read") is not None:
         r12_s(run, fx)
@@ -329,6 +356,8 @@ def check(run, fx, tier, floors=True):
     r12_v(run, fx)
     r12_d(run, fx)
     r12_f(run, fx, floors)
+    if floors or any("TupleVariationHeader" in b.path for b in fx.bodies):
+        r12_xy(run, fx)
     import zipalign
     zipalign.rule_zip(run, fx, "R12-Z", select=(lambda b: b.file.startswith(("src/tables/variable_fonts", "src/tables/glyf/variation", "src/variations"))) if floors else None, floors=floors, floor_n=5)
     recursion.run_rule(run, fx, "C01-a", lambda f: any("glyf::variation" in p or p.startswith("variations::") for p in f.local_paths),
